@@ -236,7 +236,7 @@ CLAIMED = {
              "garbage, DKG messages from non-peers) sent over gRPC to a daemon in a child process under ulimit -v 16 GiB, a second "
              "client probing liveness after every message."
              " Fixed corpus enumerates participant/threshold corner pairs of Generate on the distributed wallet."
-             " The liveness probe also signs; regular-expression syntax payloads; callers that give up after 1-20 ms. Batch-size sweep (every size 1-70 and around multiples of the processor count). A paced sequence of wrong-passphrase unlocks.",
+             " The liveness probe also signs; regular-expression syntax payloads; callers that give up after 1-20 ms. Batch-size sweep (every size 1-70 and around multiples of the processor count). A paced sequence of wrong-passphrase unlocks. C20_handler_response_is_source / hSignAtts_eq_gen / hMultisign_eq_gen: the batch handlers' validation, early exits and result-to-response mapping are translated from the source on every run and proved to be the model handlers.",
         note="Assumed: allocator size classes (short byte fields get capacity >= 8), C-library robustness. The inventory is syntactic (panic, unchecked assertion, constant-bound slice, non-constant make); plain indexing is covered by the shape theorems.",
         ref="DESIGN.md §6 C20", engine="lean+factx+dh"),
 }
